@@ -50,7 +50,7 @@ def gen_cases(tier, seed):
                         t['start'] = start
                     # stream flavour: declares seekable()/readable() like io.IOBase, or only offers the methods (probed)
                     if src.startswith('seekable'):
-                        t['flavor'] = rng.choice(['declared', 'duck', 'fileno'])
+                        t['flavor'] = rng.choice(['declared', 'duck', 'fileno', 'seek_none', 'seek_arg'])
                     elif src.startswith('nonseekable'):
                         t['flavor'] = rng.choice(['bare', 'declared', 'raising'])
                     if src.endswith('_sized'):
